@@ -300,6 +300,14 @@ def run(chk):
     rs = cond.get("results")
     ok = rs is not None and u(rs) == "self.results.as_dict()"
     chk.ob("O8.4", "results written from results.as_dict()", ok, rs if rs is not None else asd, "")
+    # Race.as_dict writes the results under a TRUTHINESS test of the results object: that is a presence test only as long as the results class defines neither __len__ nor
+    # __bool__ (a results object without per-task rows would otherwise be dropped from race.json although it carries all global metrics)
+    gs_cls = met.cls("GlobalStats")
+    truthy_tests = [n for n in walk_body(met.methods(met.cls("Race"))["as_dict"]) if isinstance(n, ast.If) and any(is_self_attr(x, "results") for x in [n.test] + (list(n.test.values) if isinstance(n.test, ast.BoolOp) else []))]
+    dunder = [m_.name for m_ in gs_cls.body if isinstance(m_, (ast.FunctionDef, ast.AsyncFunctionDef)) and m_.name in ("__len__", "__bool__")]
+    chk.ob("O8.4", "the results object is tested for presence only (its class defines no __len__ / __bool__)", not (truthy_tests and dunder), gs_cls,
+           "" if not dunder else f"GlobalStats defines {dunder}: `if self.results:` in Race.as_dict is false for a results object without per-task rows, the `results` key is not written and every global metric reads back as None",
+           key="esrally/metrics.py:GlobalStats:truthiness-is-presence")
     ts = uncond.get("race-timestamp")
     rt = b.get("race_timestamp")
     ok = ts is not None and rt is not None and "to_iso8601" in u(ts) and "from_iso8601" in u(rt)
